@@ -666,6 +666,9 @@ func ToLowerFunc(query *Query, current Map, functionOptions *FunctionOptions, ar
 	if err != nil {
 		return nil, err
 	}
+	if str == nil {
+		return nil, nil
+	}
 	return strings.ToLower(*str), nil
 }
 
@@ -684,6 +687,9 @@ func ToUpperFunc(query *Query, current Map, functionOptions *FunctionOptions, ar
 	str, err := AsType[string](args[0])
 	if err != nil {
 		return nil, err
+	}
+	if str == nil {
+		return nil, nil
 	}
 	return strings.ToUpper(*str), nil
 }
